@@ -51,11 +51,14 @@ def _pick_days(ctx, months_path, count):
             want[(y, m)].add(d)
             n += 1
     days = []
+    ctx.extra["day_x_time_points"] = 0
     with open(months_path) as f:
         for ln in f:
             mo = MONTH_RE.match(ln)
             if not mo:
                 continue
+            i = ln.index('"tod":')
+            ctx.extra["day_x_time_points"] += (ln.count("[", 0, i) - 1) * (ln.count("[", i) - 1)   # days x times of day
             key = (int(mo.group(1)), int(mo.group(2)))
             if key not in want:
                 continue
@@ -97,6 +100,8 @@ def run(ctx):
                 raise vlib.HarnessError("unexpected CalendarClock output line: " + ln[:100])
             out.write(ln[:-1] + ',"days":' + dtext + "}\n")
     ctx.extra["days_checked_every_second"] = len(days)
+    # measured numbers of library calls compared with a TLC value (splitUTC + Date(UTC,..) per point)
+    ctx.evaluations += 2 * ctx.extra["day_x_time_points"] + 2 * 86400 * len(days)
     ctx.replay(rep, tod, label="R/CalendarClock", timeout=ctx.pick(900, 3000), args=("--batch", "40", "--case-timeout-ms", "120000"))
     os.unlink(tod)
 
@@ -104,12 +109,24 @@ def run(ctx):
     texts = os.path.join(ctx.tmp, "c19-text.cases")
     ctx.model("CalendarText", ctx.pick("MC_CalendarText_quick", "MC_CalendarText_thorough"), emit_to=texts,
               timeout=ctx.pick(600, 3000), xmx="8g")
+    tsamples = []
+    with open(texts) as f:
+        for ln in f:
+            for kind in ('"k":"fmt"', '"k":"read"'):
+                if kind in ln and not any(kind in x for x in tsamples):
+                    tsamples.append(ln.strip()[:700])
+            if len(tsamples) == 2:
+                break
     ctx.replay(rep, texts, label="R/CalendarText", timeout=ctx.pick(900, 3000))
     os.unlink(texts)
 
     # 4. V: recorded executions validated by TLC
     files = ctx.record(rec, ctx.pick(12, 48), ctx.pick(5000, 40000), "V/Calendar")
+    if files:
+        with open(files[0]) as f:
+            tsamples += [ln.strip()[:300] for ln in f.readlines()[1:4]]
     ctx.validate_traces("Trace_Calendar", "Trace_Calendar", files, label="V/Calendar", timeout=ctx.pick(600, 3000))
+    ctx.samples = [x[:260] + (" ..." if len(x) > 260 else "") for x in ctx.samples[:1]] + tsamples
     ctx.assumptions += [
         "TZ=UTC, LC_ALL=C; only the UTC functions of Date are exercised",
         "instants are (day, second, microsecond) triples converted to double by the harness; parsed instants are compared with "
